@@ -356,6 +356,12 @@ func enginePurity(ctx *engineCtx) {
 			sib.table("agency.txt").rows[0]["agency_timezone"] = g.pick(altZones)
 			variants = append(variants, sib)
 		}
+		if g.coin(0.4) { // spelling sibling: the same zone name with a stray space / other case - not a loadable name, hence UTC, whatever was parsed before
+			sib := f.clone()
+			z := sib.table("agency.txt").rows[0]["agency_timezone"]
+			sib.table("agency.txt").rows[0]["agency_timezone"] = g.pick([]string{" " + z, z + " ", strings.ToLower(z)})
+			variants = append(variants, sib)
+		}
 		for vi, v := range variants {
 			inherit := g.coin(0.5)
 			p := g.presentation(v)
@@ -397,7 +403,7 @@ func enginePurity(ctx *engineCtx) {
 				}
 			}
 			stats["static_parsed"]++
-			if vi == 1 {
+			if vi >= 1 {
 				stats["static_zone_sibling"]++
 			}
 			keptFeeds = append(keptFeeds, kept{saved, inherit, proj, describeMembers(ms)})
